@@ -303,6 +303,207 @@ it
 //@body_start 1
             proof { lemma_sum_mono(old(self).colptr@, r14_i1 as int + 1, old(self).colptr@.len() as int); }
 //@end
+
+//@fn file=src/algebra/csc/utils.rs in="impl<T> CscMatrix<T>" name=fill_block rules=R1
+//@contract
+    requires
+        old(self).arrays_ok(), M.colptr_ok_u(), old(MtoKKT)@.len() >= M.nzval@.len(),
+        shape == MatrixShape::N ==> {
+            &&& initcol + M.n <= old(self).colptr@.len()
+            &&& forall|k: int| 0 <= k < M.rowval@.len() ==> #[trigger] M.rowval@[k] + initrow <= usize::MAX
+            // cursor discipline: the slots the entries will go to are inside the arrays and pairwise distinct
+            &&& forall|i: int, j: int| #[trigger] M.in_col_u(j, i) ==> dest_n(*old(self), *M, initcol as int, i, j) < old(self).rowval@.len()
+            &&& forall|i1: int, j1: int, i2: int, j2: int| #[trigger] M.in_col_u(j1, i1) && #[trigger] M.in_col_u(j2, i2) && j1 != j2
+                    ==> dest_n(*old(self), *M, initcol as int, i1, j1) != dest_n(*old(self), *M, initcol as int, i2, j2)
+        },
+        shape == MatrixShape::T ==> {
+            &&& initrow + M.n <= usize::MAX
+            &&& forall|k: int| 0 <= k < M.rowval@.len() ==> initcol + #[trigger] M.rowval@[k] < old(self).colptr@.len()
+            &&& forall|j: int| 0 <= j < M.rowval@.len() ==> #[trigger] dest_t(*old(self), *M, initcol as int, j) < old(self).rowval@.len()
+            &&& forall|j1: int, j2: int| 0 <= j1 < j2 < M.rowval@.len() ==> #[trigger] dest_t(*old(self), *M, initcol as int, j1) != #[trigger] dest_t(*old(self), *M, initcol as int, j2)
+        },
+    ensures
+        final(self).arrays_ok(), final(self).rowval@.len() == old(self).rowval@.len(), final(self).colptr@.len() == old(self).colptr@.len(),
+        final(MtoKKT)@.len() == old(MtoKKT)@.len(),
+        // C11: N: entry j of column i of M lands at (M.rowval[j]+initrow, i+initcol), in slot dest_n; the slot is recorded
+        shape == MatrixShape::N ==> {
+            &&& forall|i: int, j: int| #[trigger] M.in_col_u(j, i) ==> {
+                    let d = dest_n(*old(self), *M, initcol as int, i, j);
+                    final(MtoKKT)@[j] == d && final(self).rowval@[d] == M.rowval@[j] + initrow && final(self).nzval@[d] == M.nzval@[j] }
+            &&& forall|i: int| 0 <= i < M.n ==> #[trigger] final(self).colptr@[initcol + i] == old(self).colptr@[initcol + i] + (M.colptr@[i + 1] - M.colptr@[i])
+            &&& colptr_same_except(final(self).colptr@, old(self).colptr@, initcol as int, initcol + M.n)
+        },
+        // C11: T: entry j of column i of M lands transposed at (i+initrow, M.rowval[j]+initcol), in slot dest_t
+        shape == MatrixShape::T ==> {
+            &&& forall|i: int, j: int| #[trigger] M.in_col_u(j, i) ==> {
+                    let d = dest_t(*old(self), *M, initcol as int, j);
+                    final(MtoKKT)@[j] == d && final(self).rowval@[d] == i + initrow && final(self).nzval@[d] == M.nzval@[j] }
+            &&& forall|c: int| 0 <= c < old(self).colptr@.len() ==>
+                    #[trigger] final(self).colptr@[c] == old(self).colptr@[c] + count_row(M.rowval@, c - initcol, M.rowval@.len() as int)
+        },
+//@pre
+        proof { assert(self.colptr@.len() == self.colptr.len()); assert(self.rowval@.len() == self.rowval.len()); assert(M.rowval@.len() == M.rowval.len()); }
+        let ghost nnz = M.rowval@.len() as int;
+        proof {
+            assert forall|i: int| 0 <= i < M.n implies pushed_n(*M, i, 0) == 0 by { assert(M.colptr@[0] <= M.colptr@[i]); }
+        }
+//@iter 1
+it0
+//@loop 1
+        invariant
+            it0.seq().len() == M.n, range_from_u(it0.seq(), 0),
+            self.arrays_ok(), self.rowval@.len() == old(self).rowval@.len(), self.colptr@.len() == old(self).colptr@.len(),
+            self.colptr@.len() <= usize::MAX, self.rowval@.len() <= usize::MAX, nnz <= usize::MAX,
+            MtoKKT@.len() == old(MtoKKT)@.len(), M.colptr_ok_u(), MtoKKT@.len() >= nnz, nnz == M.rowval@.len(),
+            fill_block_pre(*old(self), *M, initrow, initcol, shape),
+            fill_block_state(*old(self), *self, *M, MtoKKT@, initrow, initcol, shape, M.colptr@[it0.index@] as int),
+//@body_start 1
+            let ghost ic = i as int;
+            proof { assert(M.colptr@[ic] <= M.colptr@[ic + 1] <= M.colptr@[M.n as int]); }
+//@iter 2
+it1
+//@loop 2
+            invariant
+                i < M.n, start == M.colptr@[i as int], stop == M.colptr@[i + 1],
+                it1.seq().len() == stop - start, range_from_u(it1.seq(), start as int),
+                self.arrays_ok(), self.rowval@.len() == old(self).rowval@.len(), self.colptr@.len() == old(self).colptr@.len(),
+                self.colptr@.len() <= usize::MAX, self.rowval@.len() <= usize::MAX, nnz <= usize::MAX,
+                MtoKKT@.len() == old(MtoKKT)@.len(), M.colptr_ok_u(), MtoKKT@.len() >= nnz, nnz == M.rowval@.len(),
+                fill_block_pre(*old(self), *M, initrow, initcol, shape),
+                fill_block_state(*old(self), *self, *M, MtoKKT@, initrow, initcol, shape, start + it1.index@),
+//@body_start 2
+                let ghost s0 = *self;
+                let ghost map0 = MtoKKT@;
+                let ghost jj = j as int;
+                let ghost ii = i as int;
+                let ghost gcol = if shape == MatrixShape::T { M.rowval@[jj] + initcol } else { ii + initcol };
+                proof {
+                    assert(M.in_col_u(jj, ii));
+                    assert(M.colptr@[ii + 1] <= M.colptr@[M.n as int]);
+                    if shape == MatrixShape::T {
+                        lemma_count_row_le(M.rowval@, M.rowval@[jj] as int, jj);
+                        assert(self.colptr@[gcol] == dest_t(*old(self), *M, initcol as int, jj));
+                    } else {
+                        assert(pushed_n(*M, ii, jj) == jj - M.colptr@[ii]);
+                        assert(self.colptr@[gcol] == dest_n(*old(self), *M, initcol as int, ii, jj));
+                    }
+                    assert(self.colptr@[gcol] < self.rowval@.len());
+                }
+//@body_end 2
+                proof {
+                    lemma_fill_block_step(*old(self), s0, *self, *M, map0, MtoKKT@, initrow, initcol, shape, ii, jj);
+                }
+//@end
+}
+
+
+// ---- fill_block: abstract cursor discipline
+impl CscMatrix<F> {
+    pub open spec fn colptr_ok_u(&self) -> bool {
+        &&& self.colptr@.len() == self.n + 1
+        &&& self.colptr@[0] == 0
+        &&& self.rowval@.len() == self.nzval@.len()
+        &&& self.colptr@[self.n as int] == self.nzval@.len()
+        &&& forall|a: int, b: int| 0 <= a <= b <= self.n ==> self.colptr@[a] <= self.colptr@[b]
+    }
+    pub open spec fn in_col_u(&self, k: int, j: int) -> bool { 0 <= j < self.n && self.colptr@[j] <= k < self.colptr@[j + 1] }
+}
+pub open spec fn range_from_u(sq: Seq<usize>, lo: int) -> bool { forall|k: int| 0 <= k < sq.len() ==> #[trigger] sq[k] == lo + k }
+// slot of entry j (column i of M) when M is placed un-transposed: the column cursor plus the offset inside the column
+pub open spec fn dest_n(K0: CscMatrix<F>, M: CscMatrix<F>, initcol: int, i: int, j: int) -> int {
+    K0.colptr@[initcol + i] + (j - M.colptr@[i])
+}
+// slot of entry j when M is placed transposed: the cursor of column rowval[j] plus the number of earlier entries of that row
+pub open spec fn dest_t(K0: CscMatrix<F>, M: CscMatrix<F>, initcol: int, j: int) -> int {
+    K0.colptr@[initcol + M.rowval@[j]] + count_row(M.rowval@, M.rowval@[j] as int, j)
+}
+pub open spec fn fill_block_pre(K0: CscMatrix<F>, M: CscMatrix<F>, initrow: usize, initcol: usize, shape: MatrixShape) -> bool {
+    &&& (shape == MatrixShape::N ==> {
+            &&& initcol + M.n <= K0.colptr@.len()
+            &&& forall|k: int| 0 <= k < M.rowval@.len() ==> #[trigger] M.rowval@[k] + initrow <= usize::MAX
+            &&& forall|i: int, j: int| #[trigger] M.in_col_u(j, i) ==> dest_n(K0, M, initcol as int, i, j) < K0.rowval@.len()
+            &&& forall|i1: int, j1: int, i2: int, j2: int| #[trigger] M.in_col_u(j1, i1) && #[trigger] M.in_col_u(j2, i2) && j1 != j2
+                    ==> dest_n(K0, M, initcol as int, i1, j1) != dest_n(K0, M, initcol as int, i2, j2) })
+    &&& (shape == MatrixShape::T ==> {
+            &&& initrow + M.n <= usize::MAX
+            &&& forall|k: int| 0 <= k < M.rowval@.len() ==> initcol + #[trigger] M.rowval@[k] < K0.colptr@.len()
+            &&& forall|j: int| 0 <= j < M.rowval@.len() ==> #[trigger] dest_t(K0, M, initcol as int, j) < K0.rowval@.len()
+            &&& forall|j1: int, j2: int| 0 <= j1 < j2 < M.rowval@.len() ==> #[trigger] dest_t(K0, M, initcol as int, j1) != #[trigger] dest_t(K0, M, initcol as int, j2) })
+}
+// entries placed by column i of M before linear position k
+pub open spec fn pushed_n(M: CscMatrix<F>, i: int, k: int) -> int {
+    if k <= M.colptr@[i] { 0 } else if k >= M.colptr@[i + 1] { M.colptr@[i + 1] - M.colptr@[i] } else { k - M.colptr@[i] }
+}
+// state after the entries 0..k of M (storage order) have been placed
+pub open spec fn fill_block_state(K0: CscMatrix<F>, K: CscMatrix<F>, M: CscMatrix<F>, map: Seq<usize>, initrow: usize, initcol: usize, shape: MatrixShape, k: int) -> bool {
+    &&& (shape == MatrixShape::N ==> {
+            &&& forall|i: int, j: int| #[trigger] M.in_col_u(j, i) && j < k ==> {
+                    let d = dest_n(K0, M, initcol as int, i, j);
+                    map[j] == d && K.rowval@[d] == M.rowval@[j] + initrow && K.nzval@[d] == M.nzval@[j] }
+            &&& forall|i: int| 0 <= i < M.n ==> #[trigger] K.colptr@[initcol + i] == K0.colptr@[initcol + i] + pushed_n(M, i, k)
+            &&& colptr_same_except(K.colptr@, K0.colptr@, initcol as int, initcol + M.n) })
+    &&& (shape == MatrixShape::T ==> {
+            &&& forall|i: int, j: int| #[trigger] M.in_col_u(j, i) && j < k ==> {
+                    let d = dest_t(K0, M, initcol as int, j);
+                    map[j] == d && K.rowval@[d] == i + initrow && K.nzval@[d] == M.nzval@[j] }
+            &&& forall|c: int| 0 <= c < K0.colptr@.len() ==> #[trigger] K.colptr@[c] == K0.colptr@[c] + count_row(M.rowval@, c - initcol, k) })
+}
+// one placement step: entry jj of column ii is written at the cursor of its destination column
+pub proof fn lemma_fill_block_step(K0: CscMatrix<F>, K1: CscMatrix<F>, K2: CscMatrix<F>, M: CscMatrix<F>, map1: Seq<usize>, map2: Seq<usize>,
+                                   initrow: usize, initcol: usize, shape: MatrixShape, ii: int, jj: int)
+    requires
+        M.colptr_ok_u(), M.in_col_u(jj, ii), fill_block_pre(K0, M, initrow, initcol, shape),
+        fill_block_state(K0, K1, M, map1, initrow, initcol, shape, jj),
+        K1.rowval@.len() == K0.rowval@.len(), K1.nzval@.len() == K0.rowval@.len(), K1.colptr@.len() == K0.colptr@.len(), map1.len() > jj,
+        K0.rowval@.len() <= usize::MAX,
+        ({ let col = if shape == MatrixShape::T { M.rowval@[jj] + initcol } else { ii + initcol };
+           let row = if shape == MatrixShape::T { ii + initrow } else { M.rowval@[jj] + initrow };
+           let d = K1.colptr@[col] as int;
+           &&& 0 <= col < K1.colptr@.len() && 0 <= d < K1.rowval@.len()
+           &&& K2.rowval@ == K1.rowval@.update(d, row as usize) && K2.nzval@ == K1.nzval@.update(d, M.nzval@[jj])
+           &&& map2 == map1.update(jj, d as usize) && K2.colptr@ == K1.colptr@.update(col, (d + 1) as usize) }),
+    ensures fill_block_state(K0, K2, M, map2, initrow, initcol, shape, jj + 1),
+{
+    if shape == MatrixShape::N {
+        let col = ii + initcol;
+        let d = K1.colptr@[col] as int;
+        assert(pushed_n(M, ii, jj) == jj - M.colptr@[ii]);
+        assert(d == dest_n(K0, M, initcol as int, ii, jj));
+        assert forall|i: int, j: int| #[trigger] M.in_col_u(j, i) && j < jj + 1 implies ({
+                let dd = dest_n(K0, M, initcol as int, i, j);
+                map2[j] == dd && K2.rowval@[dd] == M.rowval@[j] + initrow && K2.nzval@[dd] == M.nzval@[j] }) by {
+            if j < jj { assert(dest_n(K0, M, initcol as int, i, j) != dest_n(K0, M, initcol as int, ii, jj)); }
+            else {
+                // j == jj: the column containing jj is unique
+                if i < ii { assert(M.colptr@[i + 1] <= M.colptr@[ii]); }
+                if ii < i { assert(M.colptr@[ii + 1] <= M.colptr@[i]); }
+            }
+        }
+        assert forall|i: int| 0 <= i < M.n implies #[trigger] K2.colptr@[initcol + i] == K0.colptr@[initcol + i] + pushed_n(M, i, jj + 1) by {
+            assert(K1.colptr@[initcol + i] == K0.colptr@[initcol + i] + pushed_n(M, i, jj));
+            if i < ii { assert(M.colptr@[i + 1] <= M.colptr@[ii]); assert(pushed_n(M, i, jj + 1) == pushed_n(M, i, jj)); assert(K2.colptr@[initcol + i] == K1.colptr@[initcol + i]); }
+            else if ii < i { assert(M.colptr@[ii + 1] <= M.colptr@[i]); assert(pushed_n(M, i, jj + 1) == pushed_n(M, i, jj)); assert(K2.colptr@[initcol + i] == K1.colptr@[initcol + i]); }
+            else { assert(pushed_n(M, ii, jj + 1) == jj + 1 - M.colptr@[ii]); assert(K2.colptr@[initcol + ii] == d + 1); }
+        }
+        assert(colptr_same_except(K2.colptr@, K0.colptr@, initcol as int, initcol + M.n));
+    } else {
+        let col = M.rowval@[jj] + initcol;
+        let d = K1.colptr@[col] as int;
+        assert(d == dest_t(K0, M, initcol as int, jj));
+        assert forall|i: int, j: int| #[trigger] M.in_col_u(j, i) && j < jj + 1 implies ({
+                let dd = dest_t(K0, M, initcol as int, j);
+                map2[j] == dd && K2.rowval@[dd] == i + initrow && K2.nzval@[dd] == M.nzval@[j] }) by {
+            if j < jj { assert(dest_t(K0, M, initcol as int, j) != dest_t(K0, M, initcol as int, jj)); }
+            else {
+                if i < ii { assert(M.colptr@[i + 1] <= M.colptr@[ii]); }
+                if ii < i { assert(M.colptr@[ii + 1] <= M.colptr@[i]); }
+            }
+        }
+        assert forall|c: int| 0 <= c < K0.colptr@.len() implies #[trigger] K2.colptr@[c] == K0.colptr@[c] + count_row(M.rowval@, c - initcol, jj + 1) by {
+            assert(K1.colptr@[c] == K0.colptr@[c] + count_row(M.rowval@, c - initcol, jj));
+            assert(count_row(M.rowval@, c - initcol, jj + 1) == count_row(M.rowval@, c - initcol, jj) + (if M.rowval@[jj] == c - initcol { 1int } else { 0int }));
+        }
+    }
 }
 
 // the values produced by the range offset..offset+blockdim
